@@ -373,6 +373,9 @@ def run(tier: str, seed: int, replay=None) -> int:
     ok_spec, log = core.coq_make(["Base/Sx.vo", "Eql/TraceSpec.vo"])
     rep.oblige("build:spec", ok_spec, "" if ok_spec else core.first_error(log))
     model_ok = core.standard_proof_steps(rep, PROP, ["Props/C10.vo"])
+    if tier == "thorough" and model_ok:
+        rc, out = core.sh(["timeout", "900", "coqchk", "-silent", "-o", "-Q", ".", "Krrood", "Krrood.Props.C10"], cwd=core.COQ, timeout=930)
+        rep.oblige("coqchk:Props/C10.vo", rc == 0 and "Axioms: <none>" in out.replace("\n", " ").replace("  ", " "), out.strip()[-400:])
     if not ok_spec:
         return rep.finish()
 
